@@ -92,11 +92,12 @@ func DefaultRtpUnpackerFactory(payloadType base.AvPacketPt, clockRate int, maxSi
 
 // timestampToMs 将rtp时间戳转换为毫秒
 //
-// clockRate来自对端的sdp，小于1000(包括0)时无法按整数毫秒换算，此时直接使用原始时间戳，避免除0导致进程退出
+// clockRate来自对端的sdp，不合法(<=0)时直接使用原始时间戳，避免除0导致进程退出
 func timestampToMs(ts uint32, clockRate int) int64 {
-	d := uint32(clockRate / 1000)
-	if d == 0 {
-		d = 1
+	if clockRate <= 0 {
+		return int64(ts)
 	}
-	return int64(ts / d)
+	// 注意，不能使用 ts / (clockRate/1000)：clockRate不是1000的整数倍时(比如44100, 22050, 11025)，
+	// 整数除法丢掉了小数部分，换算出的毫秒会越走越快(44100时每小时快8秒)
+	return int64(uint64(ts) * 1000 / uint64(clockRate))
 }
